@@ -26,7 +26,9 @@ _DESCS = ["A description", "desc with \"quotes\" inside", "ends with quote\"", "
           "first\n  indented\nlast", "x", "semi; colon: and, commas", "back\\slash", 'triple """ quote',
           "word " * 12 + "end", "line one\n\nline three", "tab\tinside", "trailing space ",
           "long " * 30 + "tail", "a-b_c " * 25, "noboundary" * 14, "été",
-          "x" * 69, "y" * 70, "z" * 71, "ab " * 40 + "x", "q" * 120, "cd " * 38 + "efgh ij", "w" * 112 + " " + "v" * 12]
+          "x" * 69, "y" * 70, "z" * 71, "ends with backslash\\", "b\\", "long " * 15 + "tail\\", "two\nlines\\",
+          "First paragraph.\u2028Second paragraph.", "sep\u2029here", "nel\x85inside", "nbsp\xa0x", "bom\ufeffx",
+          "word " * 20 + "\u2028tail", "l1\nl2\u2028x\nl3\x85y", "trail\u2028", "\u2029lead", "a\u2028\u2029\x85b", "ab " * 40 + "x", "q" * 120, "cd " * 38 + "efgh ij", "w" * 112 + " " + "v" * 12]
 _FIELD_NAMES = ["id", "name", "value", "items", "owner", "next", "count", "flag", "data", "kind", "fooBar", "snake_case"]
 _ARG_NAMES = ["first", "after", "filter", "where", "orderBy", "flag", "argOne"]
 
